@@ -1,7 +1,8 @@
 /-
   Spec/C12 — "each control command gets exactly one answer per target, never
   someone else's", as decidable predicates over what is observable at the
-  Enqueue callback channel and at the injected send function.
+  Enqueue callback channel, at the injected send function (including the command
+  object it is handed) and at the calls of / returns from ProcessResponse.
 
   The same predicates are (a) proved of every model execution in Props/C12.lean
   and (b) evaluated by the driver on what the REAL code did (harness trace).
@@ -47,10 +48,18 @@ def errTargets : Result → List Nat
 
 /-- Events the harness records (one total order, taken under one mutex). -/
 inductive Ev where
-  /-- the injected send function was called for (command index, target) and returned ok / an error -/
-  | send (c : Nat) (t : Nat) (ok : Bool)
-  /-- `ProcessResponse(r, sender)` was issued -/
+  /-- the injected send function was ENTERED for (command index, target) — it
+      later returned ok / an error — and the command object it was handed (the
+      one `RunCommand` registers, sends and arms its timer with) has response
+      timeout `tmo` and arguments `arg` -/
+  | send (c : Nat) (t : Nat) (ok : Bool) (tmo : Nat) (arg : Nat)
+  /-- `ProcessResponse(r, sender)` was issued (recorded BEFORE the call) -/
   | resp (r : Resp)
+  /-- that `ProcessResponse(r, sender)` returned (recorded AFTER the return);
+      `early` = it returned less than the call's response timeout after the send
+      function for `r`'s key had been entered, i.e. before the caller's timer —
+      armed only after the send function returned — could have fired -/
+  | ret (r : Resp) (early : Bool)
   /-- a value arrived on the callback channel of command `c` -/
   | done (c : Nat) (res : Result)
 deriving DecidableEq, Repr
@@ -59,22 +68,95 @@ def isDone (c : Nat) : Ev → Bool
   | .done c' _ => c' == c
   | _ => false
 
+def isSend (c t : Nat) (ok : Bool) : Ev → Bool
+  | .send c' t' ok' _ _ => c' == c && t' == t && ok' == ok
+  | _ => false
+
 /-- Why an entry may be what it is, given what happened BEFORE the callback:
     an own reply must have been issued; "could not be sent" only if the send to
     that target failed; "did not answer" only if it was sent. -/
 def causeOk (before : List Ev) (ci : Nat) (t : Nat) : TResp → Bool
   | .own r => before.contains (.resp r)
-  | .synth _ .send => before.contains (.send ci t false)
-  | .synth _ .timeout => before.contains (.send ci t true)
+  | .synth _ .send => before.any (isSend ci t false)
+  | .synth _ .timeout => before.any (isSend ci t true)
 
-/-- All callbacks in a trace are well-shaped, own-or-error and caused. -/
+/-- The servent waits for target `t` with the command's OWN response timeout
+    and sends it ITS OWN arguments: the per-target command that reaches the send
+    function (and `time.After(cmd.GetResponseTimeout())`) is the command
+    restricted to that target. -/
+def sendOk1 (cmds : List Cmd) : Ev → Bool
+  | .send c t _ tmo arg =>
+    match cmds[c]? with
+    | some cmd => cmd.targets.contains t && tmo == cmd.tmo && arg == argOf cmd t
+    | none => false
+  | _ => true
+
+def sendsOk (cmds : List Cmd) (evs : List Ev) : Bool := evs.all (sendOk1 cmds)
+
+/-- What the injected send function observes when caller `i` of the MODEL does
+    its send step: the single-target command `commit` made for it. -/
+def sendView (cmds : List Cmd) (i : Ref) (ok : Bool) : Option Ev :=
+  (callCmd cmds i).map (fun x => .send i.1 x.2 ok x.1.tmo (argOf x.1 x.2))
+
+def emitSend (cmds : List Cmd) (s : State) : Step → Option Ev
+  | .sendOk i => if (s.call i).pc = .registered then sendView cmds i true else none
+  | .sendFail i => if (s.call i).pc = .registered then sendView cmds i false else none
+  | _ => none
+
+/-- The send events of a model execution. -/
+def sendTrace (cmds : List Cmd) : State → List Step → List Ev
+  | _, [] => []
+  | s, st :: rest => (emitSend cmds s st).toList ++ sendTrace cmds (step cmds s st) rest
+
+/-- What follows the (first) successful send of command `ci` to target `t`. -/
+def afterSend (ci t : Nat) : List Ev → Option (List Ev)
+  | [] => none
+  | .send c t' true _ _ :: rest => if c == ci && t' == t then some rest else afterSend ci t rest
+  | _ :: rest => afterSend ci t rest
+
+/-- The first reply addressed to (id, t) in `l` whose `ProcessResponse` later
+    returned early (before the caller's timer could have fired). -/
+def firstWitness (id t : Nat) : List Ev → Option Resp
+  | [] => none
+  | .resp r :: rest =>
+    if r.id == id && r.sender == t && rest.contains (.ret r true) then some r
+    else firstWitness id t rest
+  | _ :: rest => firstWitness id t rest
+
+/-- The trace up to and including the issue of `r`. -/
+def uptoResp (r : Resp) : List Ev → List Ev
+  | [] => []
+  | e :: rest => if e = .resp r then [e] else e :: uptoResp r rest
+
+/-- A reply is never silently lost. If, after the send function for (command,
+    t) was entered (the pending call is registered BEFORE the send), a reply
+    `r` addressed to (command id, t) was issued and its `ProcessResponse`
+    returned before the call's timer could have fired, then `r` found the
+    pending call — unless an earlier reply for the same key had taken it — and
+    the caller received what was handed over: the entry for `t` is `r` or an
+    earlier reply with the same key (`C12_reply_not_lost`: the only other
+    outcome of the model is a timeout AFTER the hand-over, and then that
+    `ProcessResponse` never returns). -/
+def notLostOk (cmd : Cmd) (before : List Ev) (ci t : Nat) (e : TResp) : Bool :=
+  match afterSend ci t before with
+  | none => true
+  | some after =>
+    match firstWitness cmd.id t after with
+    | none => true
+    | some r =>
+      match e with
+      | .own r' => r'.id == cmd.id && r'.sender == t && (uptoResp r before).contains (.resp r')
+      | .synth _ _ => false
+
+/-- All callbacks in a trace are well-shaped, own-or-error, caused, and hold
+    every reply that provably reached its pending call. -/
 def donesOk (cmds : List Cmd) : List Ev → List Ev → Bool
   | _, [] => true
   | before, .done ci res :: rest =>
     (match cmds[ci]? with
      | some c => shapeOk c res && c.targets.all (fun t =>
          match entryOf c res t with
-         | some e => causeOk before ci t e
+         | some e => causeOk before ci t e && notLostOk c before ci t e
          | none => false)
      | none => false) && donesOk cmds (before ++ [.done ci res]) rest
   | before, e :: rest => donesOk cmds (before ++ [e]) rest
@@ -92,6 +174,6 @@ def finalOk (evs : List Ev) (final : List (Nat × Result)) : Bool :=
 /-- Spec.C12 on one observed scenario. Vacuous outside the property's domain
     (ids and per-command targets distinct). -/
 def Spec (cmds : List Cmd) (evs : List Ev) (final : List (Nat × Result)) : Bool :=
-  !wfCfg cmds || (onceOk cmds.length evs && donesOk cmds [] evs && finalOk evs final)
+  !wfCfg cmds || (onceOk cmds.length evs && sendsOk cmds evs && donesOk cmds [] evs && finalOk evs final)
 
 end CmdQueue
